@@ -1230,6 +1230,12 @@ class Wrapc(util.WrapperMixin):
                     fmt_result.c_val = wformat(
                         result_typemap.cxx_to_c, fmt_result
                     )
+                    if (result_typemap.sgroup == "string" and
+                            not CXX_ast.const):
+                        # c_str() returns a const pointer but the C
+                        # result of a non-const std::string is 'char *'.
+                        fmt_result.c_val = (
+                            "const_cast<char *>(\t" + fmt_result.c_val + ")")
                     append_format(
                         return_code, "{c_rv_decl} =\t {c_val};", fmt_result
                     )
